@@ -22,6 +22,11 @@ def stype_adt():
 
 # (label, SDL of an invalid schema, minimum number of errors expected)
 INVALID = [
+    ("implements-object", "type Query implements B { a: Int } type B { a: Int }", 1),
+    ("implements-scalar", "type Query implements S { a: Int } scalar S", 1),
+    ("implements-enum", "type Query implements E { a: Int } enum E { X }", 1),
+    ("implements-union", "type Query implements U { a: Int } type A { x: Int } union U = A", 1),
+    ("implements-input", "type Query implements I { a: Int } input I { x: Int }", 1),
     ("empty-object", "type Query { a: Int } type A", 1),
     ("empty-interface", "type Query { a: Int } interface I", 1),
     ("empty-union", "type Query { a: Int } union U", 1),
